@@ -243,6 +243,15 @@ func Point() {
 	schedule()
 }
 
+// Observe runs the step monitor without a scheduling point (called by unlock
+// operations before the lock is released, so that a monitor sees the state a
+// critical section produced while its lock is still held).
+func Observe() {
+	if On && !Abort && OnPoint != nil {
+		OnPoint()
+	}
+}
+
 // WaitUntil blocks the current thread until cond() holds.
 func WaitUntil(cond func() bool) {
 	if !On || Abort {
@@ -307,6 +316,25 @@ func Sleep(ns int64) {
 	cur.st = sleeping
 	cur.until = Clock + ns
 	schedule()
+}
+
+// SleepUntil suspends the current thread until the virtual clock reads t.
+func SleepUntil(t int64) {
+	if t > Clock {
+		Sleep(t - Clock)
+	}
+}
+
+// WakeTimeOf returns the wake time of the first sleeping thread with the given
+// spawn-site name in group (-1 if none): lets a scenario align itself with a
+// polling loop's next tick.
+func WakeTimeOf(group, name string) int64 {
+	for _, t := range threads {
+		if t.Group == group && t.Name == name && t.st == sleeping {
+			return t.until
+		}
+	}
+	return -1
 }
 
 // Yield is a spin-loop yield (runtime.Gosched): the thread is held back until
